@@ -42,7 +42,34 @@ class _Scipy:
     special = _Special()
 
 
+class _ExactFactorial:
+    """scipy.special.factorial on a concrete integer array, under exploration: exact integer constants (so that 1.0 / k! is the
+    exact rational and not its nearest double: IEEE rounding is outside the claim)"""
+
+    @staticmethod
+    def factorial(arr, *a, **kw):
+        import scipy.special
+
+        if V.get_context() is None or getattr(V.get_context(), "concrete", False):
+            return scipy.special.factorial(arr, *a, **kw)
+        flat = np.asarray(arr).reshape(-1)
+        out = np.empty(flat.size, dtype=object)
+        for i, k in enumerate(flat):
+            out[i] = SymReal(z3.RealVal(math.factorial(int(k))))
+        return out.reshape(np.shape(arr))
+
+    def __getattr__(self, n):
+        import scipy.special
+
+        return getattr(scipy.special, n)
+
+
+class _ScipyTI:
+    special = _ExactFactorial()
+
+
 shims.install_np(LM, HEM, MER, VG, TI)
+shims.install(TI, scipy=_ScipyTI())
 shims.install(MER, scipy=_Scipy())
 shims.install(VG, spp=_Special())
 
@@ -69,7 +96,18 @@ def make_measure(ctx, model):
     raise ValueError(model)
 
 
-def concrete_measure(model):
+def concrete_measure(model, params=None):
+    if params:
+        try:
+            if model == "HEM":
+                return HEM._HEMLevyMeasure(HEM.HEMParameters(sigma=0.1, p=params["p"], eta1=params["eta1"], eta2=params["eta2"], intensity=params["intensity"]))
+            if model == "MERTON":
+                return MER._MertonLevyMeasure(MER.MertonParameters(sigma=0.1, mu_j=params["mu_j"], sigma_j=params["sigma_j"], intensity=params["intensity"]))
+            prm = VG.VGParameters.__new__(VG.VGParameters)
+            prm.__dict__.update({"sigma": 0.1, "nu": 1.0, "theta": 0.0, "_c": params["c"], "_lambda_m": params["lambda_m"], "_lambda_p": params["lambda_p"]})
+            return VG._VGLevyMeasure(prm)
+        except Exception:
+            pass
     if model == "HEM":
         return HEM._HEMLevyMeasure(HEM.HEMParameters(sigma=0.1, p=0.4, eta1=20.0, eta2=25.0, intensity=3.0))
     if model == "MERTON":
@@ -86,12 +124,15 @@ def moment_fn(nu, n, via_xn=False):
 def replay_moment(sc):
     from scipy.integrate import quad
 
-    nu = concrete_measure(sc["model"])
     n, via = sc["n"], sc.get("via_xn", False)
-    F = moment_fn(nu, n, via)
     out = []
-    pts = {"neg": [(-0.5, -0.2), (-1.0, -0.05)], "pos": [(0.1, 0.4), (0.05, 1.0)], "str": [(-0.3, 0.2)], "neginf": [(-INF, -0.1)], "posinf": [(0.1, INF)]}[sc["kind"]]
-    for a, b in pts:
+    pts = {"neg": [(-0.5, -0.2), (-1.0, -0.05)], "pos": [(0.1, 0.4), (0.05, 1.0)], "str": [(-0.3, 0.2)], "neginf": [(-INF, -0.1)], "posinf": [(0.1, INF)],
+           "neg0": [(-0.4, 0.0), (-2.0, 0.0)], "pos0": [(0.0, 0.3), (0.0, 2.5)]}[sc["kind"]]
+    cases = [(concrete_measure(sc["model"]), pt) for pt in pts]
+    if sc.get("interval"):  # the solver's own parameters and interval first
+        cases.insert(0, (concrete_measure(sc["model"], sc.get("params")), tuple(sc["interval"])))
+    for nu, (a, b) in cases:
+        F = moment_fn(nu, n, via)
         try:
             got = float(F(a, b))
         except Exception as e:
@@ -114,6 +155,12 @@ def ends(ctx, kind):
     elif kind == "str":
         a, b = ctx.real("a"), ctx.real("b")
         ctx.assume(AND(a < 0, 0 < b))
+    elif kind == "neg0":
+        a, b = ctx.real("a"), 0.0
+        ctx.assume(a < 0)
+    elif kind == "pos0":
+        a, b = 0.0, ctx.real("b")
+        ctx.assume(b > 0)
     elif kind == "neginf":
         a, b = -INF, ctx.real("b")
         ctx.assume(b < 0)
@@ -127,9 +174,23 @@ def h_moment(ctx, model, n, kind, via_xn=False, attempt=False):
     nu = make_measure(ctx, model)
     F = moment_fn(nu, n, via_xn)
     a, b = ends(ctx, kind)
-    rp = (replay_moment, lambda m: {"model": model, "n": n, "kind": kind, "via_xn": via_xn})
+    def scenario(m):
+        sc = {"model": model, "n": n, "kind": kind, "via_xn": via_xn}
+        try:
+            sc["params"] = {k: m.f(k) for k in ("intensity", "p", "eta1", "eta2", "mu_j", "sigma_j", "c", "lambda_m", "lambda_p") if k in m.symbols}
+            sc["interval"] = [a if isinstance(a, float) else m.f(a), b if isinstance(b, float) else m.f(b)]
+        except Exception:
+            pass
+        return sc
+
+    rp = (replay_moment, scenario)
     info = {"model": model, "n": n, "kind": kind, "via_xn": via_xn}
     tag = "C09.xn" if via_xn else ("C09.attempted" if attempt else "C09")
+    if kind in ("neg0", "pos0"):
+        # an interval ending exactly at 0 (n >= 1): one-sided limit of the open-interval formula, checked through additivity and the derivative in the other end
+        x = ctx.real("x")
+        ctx.assume(AND(x > a, x < 0) if kind == "neg0" else AND(x > 0, x < b))
+        ctx.prove(f"{tag}.interval_ending_at_zero_is_additive", EQ_RATIONAL(F(a, x) + F(x, b), F(a, b)), info=info, replay=rp)
     if not isinstance(b, float):
         Fb = F(a, Dual(b, 1.0))
         want = (b**n if n else 1) * nu(b)
@@ -228,9 +289,15 @@ def harnesses(tier):
             if (model, n) == ("MERTON", 2):
                 continue
             hs.append(Harness(f"trunc.{model}.n{n}", h_truncated, {"model": model, "n": n}, max_paths=2000, batch=20))
-    for n in ((1, 2, 3) if q else (1, 2, 3, 4, 5)):
-        for kind in ("neg", "pos"):
+    for n in ((1, 2, 3, 4) if q else (1, 2, 3, 4, 5, 6, 7)):
+        for kind in ("neg", "pos", "neginf", "posinf", "str", "neg0", "pos0"):
             hs.append(Harness(f"VG.xn{n}.{kind}", h_moment, {"model": "VG", "n": n, "kind": kind, "via_xn": True}, max_paths=400, timeout_ms=40000))
+    for model in ("HEM", "MERTON", "VG"):
+        for n in (1, 2):
+            if (model, n) == ("MERTON", 2):
+                continue
+            for kind in ("neg0", "pos0"):
+                hs.append(Harness(f"{model}.n{n}.{kind}", h_moment, {"model": model, "n": n, "kind": kind}, max_paths=400, timeout_ms=40000))
     for model in ("HEM", "VG"):
         for n in (0, 1, 2):
             if model == "VG" and n == 0:
@@ -248,7 +315,7 @@ ATTEMPTED = ["C09.attempted." + s for s in ("derivative_in_upper_end_is_integran
 
 
 def main(tier):
-    bounds = {"models": "HEM, Merton, Variance-Gamma: every parameter value (symbolic), n = 0, 1, 2 (dedicated functions), VG n <= 3 (quick) / 5 (thorough) through integrate_against_xn",
+    bounds = {"models": "HEM, Merton, Variance-Gamma: every parameter value (symbolic), n = 0, 1, 2 (dedicated functions), VG n <= 4 (quick) / 7 (thorough) through integrate_against_xn (one side, infinite ends, straddling, intervals ending exactly at 0)",
               "intervals": "negative side, positive side, straddling zero (where finite), infinite ends; truncation bounds anywhere",
               "outside": "CGMY (incomplete gamma / exponential integral with parameter-dependent branches) and every generic quadrature fallback (scipy.integrate.quad is C code); "
                          "n >= 3 for HEM / Merton (fallback to quad); signs of odd moments"}
